@@ -277,6 +277,23 @@ func (e *Exec) evalExternal(call *ast.CallExpr, st *State, ctx *Ctx) []string {
 				}
 			}
 		}
+	case "github.com/pelletier/go-toml/v2.Unmarshal":
+		if len(call.Args) == 2 {
+			if u, ok := call.Args[1].(*ast.UnaryExpr); ok && u.Op.String() == "&" {
+				if id, ok := u.X.(*ast.Ident); ok {
+					if v, ok := info.ObjectOf(id).(*types.Var); ok && isAny(v.Type()) {
+						src := arg(0)
+						e.note("toml.Unmarshal into an `any` is an uninterpreted deterministic function of the text (tomlParseF / tomlParseE)")
+						st.env[v] = "(tomlParseF " + src + ")"
+						return []string{"(tomlParseE " + src + ")"}
+					}
+				}
+			}
+		}
+	case "regexp.Regexp.Split":
+		e.note("regexp.Split(s, n) is the uninterpreted function reSplit of (pattern, s, n) (assumed contract of regexp); the pattern's language is pinned by the `regexp` contracts")
+		re := e.eval(call.Fun.(*ast.SelectorExpr).X, st, ctx)
+		return []string{"(Slice (reSplit (rePat " + re + ") " + arg(0) + " " + arg(1) + "))"}
 	case "encoding/base64.Encoding.EncodeToString":
 		e.note("base64.StdEncoding.EncodeToString is the uninterpreted function b64 (assumed to be standard base64)")
 		return []string{"(b64 " + arg(0) + ")"}
